@@ -112,6 +112,7 @@ def gen(cls, maxlen=8):
     w('extern "C" void h_default() {')
     w('    T * ap = new T; T & a = *ap;')
     w('    uint32_t ot; memcpy(&ot, &a.objectType, 4); vp_note("ctor_type", ot);')
+    w('    expo(a, "c");                      /* member values exactly as constructed */')
     w('    MemFile mf(buf1, sizeof buf1);')
     w('    a.write(mf);')
     w('    vp_note("overflow", mf.overflow); vp_note("p1", mf.p);')
@@ -162,6 +163,19 @@ def gen(cls, maxlen=8):
         w('    vp_reach("h_big:end");')
         w('}')
         w('#endif')
+    # ---- sparse population: only the members named by VP_SPARSE_FILL are set, the rest stays as constructed
+    w('#ifdef VP_SPARSE_FILL')
+    w('extern "C" void h_sparse() {')
+    w('    T * ap = new T; T & a = *ap;')
+    w('    VP_SPARSE_FILL')
+    w('    MemFile mf(buf1, sizeof buf1);')
+    w('    a.write(mf);')
+    w('    vp_note("overflow", mf.overflow); vp_note("p1", mf.p);')
+    w('    vp_out(buf1, mf.p, "bytes1");')
+    w('    delete ap;')
+    w('    vp_reach("h_sparse:end");')
+    w('}')
+    w('#endif')
     # ---- hostile decode
     w('#include <stdexcept>')
     w('#include <Vector/BLF/Exceptions.h>')
@@ -259,7 +273,7 @@ def make_rt_judge(cls, padding_types, default_obj=False):
         # ---- C17: a freshly constructed object has fully determined member values and its class's type code
         if default_obj:
             for lf in lv:
-                ca = J.out(st, 'a:' + lf.path)
+                ca = J.out(st, 'c:' + lf.path)
                 if ca is not None and J.has_garbage(ca):
                     _viol(ex, st, 'uninit_member', '%s.%s of a default-constructed object is not initialised' % (
                         cls, lf.path))
@@ -340,7 +354,7 @@ def make_rt_judge(cls, padding_types, default_obj=False):
                     _viol(ex, st, 'roundtrip', '%s.%s: payload differs after write/read' % (cls, lf.path), m)
                 continue
             persisted = bool(J.cells_vars(ca) & bvars)
-            touched = False
+            touched = bool(st.flags.get('native'))      # native replay has no write tracking: compare every member
             if wb is not None and lf.off is not None:
                 sz = len(ca)
                 touched = any((wb[0] + lf.off + i) in wb[2] for i in range(sz)) if wb[0] == 0 else \
@@ -369,3 +383,37 @@ def make_rt_judge(cls, padding_types, default_obj=False):
                 if d:
                     _viol(ex, st, 'idempotence', '%s: re-encoding the decoded object changes bytes' % cls, m)
     return judge
+
+
+def make_uninit_judge(cls):
+    """only: no emitted byte may depend on never-written memory"""
+    def judge(ex, st, status):
+        if status != 'ok':
+            return
+        b1 = J.out(st, 'bytes1')
+        if b1 is None:
+            return
+        if J.has_garbage(b1):
+            bad = [i for i, c_ in enumerate(b1) if J.has_garbage([c_])]
+            _viol(ex, st, 'uninit_output', '%s: emitted bytes %s depend on uninitialised memory' % (cls, bad[:12]))
+        else:
+            ex.obl_concrete += 1
+    return judge
+
+
+def selectors(cls):
+    """members whose value steers control flow of write()/read() (they occur in some path condition of h_rt)"""
+    import run
+    res = run.run_entry(gen(cls, maxlen=1), 'h_rt', None, dict(max_wall=120))
+    ex = res['_ex']
+    names = set()
+    for r in ex.results:
+        for c_ in r.state.pc:
+            for v in X.free_vars(c_):
+                n = v.a[0].split('#')[0]
+                if n.startswith('stale:'):
+                    n = n[6:]
+                n = n.split('[')[0]
+                names.add(n)
+    lv = {lf.path: lf for lf in leaves(cls)}
+    return sorted(n for n in names if n in lv and lv[n].kind in ('int', 'double'))
